@@ -180,6 +180,15 @@ func TextSkeleton(s string) string {
 	return sb.String()
 }
 
+// Native reports whether the harness runs natively (replay) rather than under
+// the engine. Harnesses use it only to pick how a stubbed environment is
+// provided (e.g. a real ELF file instead of a stubbed debug/elf).
+func Native() bool { return true }
+
+// SetELF / AttachData feed the engine's debug/elf stub (no-ops natively).
+func SetELF(file interface{}, openFails bool)                {}
+func AttachData(obj interface{}, data []byte, readFails bool) {}
+
 // Param returns a per-tier parameter of the check configuration.
 func Param(name string, def int) int {
 	load()
